@@ -6,7 +6,7 @@ from core import World, parse_fs, Line, hx
 from gen import Gen, mode_line, cfg_line
 from suites import run_suite, parse_snap, parse_snap_scan, crlf_all, exp_silent
 
-LEAN_MODULES = ['GoSnaps.Props.C05', 'GoSnaps.Props.C05Clean', 'GoSnaps.Props.Tie.SnapshotIO', 'GoSnaps.Props.Tie.CleanIO', 'GoSnaps.Props.Tie.Flows', 'GoSnaps.Props.Tie.CleanTopIO1', 'GoSnaps.Props.Tie.CleanTopIO2', 'GoSnaps.Props.Tie.CleanTopIO3', 'GoSnaps.Props.Tie.CleanTopIO']
+LEAN_MODULES = ['GoSnaps.Props.C05', 'GoSnaps.Props.C05Clean', 'GoSnaps.Props.Tie.SnapshotIO', 'GoSnaps.Props.Tie.CleanIO', 'GoSnaps.Props.Tie.Flows', 'GoSnaps.Props.Tie.CleanTopIO1', 'GoSnaps.Props.Tie.CleanTopIO2', 'GoSnaps.Props.Tie.CleanTopIO3', 'GoSnaps.Props.Tie.CleanTopIO', 'GoSnaps.Props.Tie.Wrappers']
 EVIDENCE = dict(exhaustive=True,
                 rule='complete enumeration of CI{on,off} x Update{unset,true,false} x UPDATE_SNAPS{unset,true,clean,other} x 5 entry points x entry{missing,equal,different} (+ the two JSON entry points x {stored in another layout}) and of the Clean cells (sort option x stale present x file sorted); the cells with a present multi-entry snapshot and the Clean cells once more per file variant (CR LF, mixed line endings, hand-edited spacing); each cell once in-process and once in a process started with the real environment; a cell is non-trivial when the real code produced an event or a write')
 
